@@ -70,7 +70,7 @@ int main(int argc, char **argv)
 	R.bound = "family=" + fam + " cells=" + str(S.size());
 	R.max_samples = 3;
 	Ctr T;
-	uint64_t cells_done = 0, positions = 0, pubinputs = 0;
+	uint64_t cells_done = 0, positions = 0, pubinputs = 0, order2_inputs_accepted = 0;
 	std::set<std::string> reported;   // one violation line per (key) and cell
 	for (size_t si = 0; si < S.size(); si++)
 	{
@@ -262,10 +262,16 @@ int main(int argc, char **argv)
 					if (in.tag.k == K_EXACT) ex = mpz_cmp(orig, vals[k].second) ? (in.tag.covered ? X_REJECT : X_FREE) : X_SKIP;
 					if (ex == X_SKIP) continue;
 					if (ex == X_REFUSE) ex = X_FREE;     // the refusal clause speaks about received values, not about what the caller passes
+					// class-level verifiers (GrothSKC / GrothVSSHE / VRHE / commitment schemes) leave the membership of the caller's
+					// own inputs (cards, generators) to the caller (CheckGroup, CheckElement on receipt): a non-member -x in place
+					// of x is recorded, not judged (it is accepted whenever the exponent it is raised to happens to be even)
+					bool order2_input = (ex == X_REJECT && cls == "nonmember" && vals[k].first == "p-v" && in.tag.weak == "order2-input");
+					if (order2_input) ex = X_FREE;
 					RunOut o;
 					try { in.set(vals[k].second); o = run_cell(*c, proof, seed, NULL, false); }
 					catch (...) { in.undo(orig); throw; }
 					in.undo(orig);
+					if (order2_input && o.accept) order2_inputs_accepted++;
 					judge(in.tag, "in." + in.name, vals[k].first, cls, ex, o, "in:" + str(pi) + ":" + vals[k].second.str());
 				}
 			}
@@ -284,6 +290,7 @@ int main(int argc, char **argv)
 	R.counters["cells"] = cells_done;
 	R.counters["positions"] = positions;
 	R.counters["public_inputs"] = pubinputs;
+	R.counters["nonmember_caller_inputs_accepted"] = order2_inputs_accepted;
 	R.finish();
 	return 0;
 }
